@@ -284,7 +284,8 @@ def runOp (w : World) (op : SOp) (o : Oracles) : Option (List String × World) :
     | some c => (if c.sock.isSome then 1 else 0) + (if c.acc.isSome then 1 else 0)
     | none => 0
   let st := s!"st:{b01 w2.connected}:{match w2.ttype with | .binary => "I" | .ascii => "A"}:{match w2.mode with | .passive => "p" | .active => "a"}:{b01 w2.rfc}:{fds}:{let p := w2.ctl.buf ++ w2.net.stream; if p.length ≤ 64 then hexOfBytes p else s!"n{p.length}"}"
-  pure (evs ++ [renderRet res] ++ sinkTok ++ [st], w2)
+  -- the control socket is held exactly while the client is connected
+  pure (evs ++ [renderRet res] ++ sinkTok ++ [st, s!"cs:{b01 w2.connected}"], w2)
 
 /-- split the implementation's tokens into per-operation segments (after each `op:k` marker) -/
 def splitOps : List String → List (List String) → List String → List (List String)
